@@ -349,6 +349,60 @@ def run(ctx):
             for k in list(sys.modules):
                 if k.split(".")[0] == pkg:
                     del sys.modules[k]
+    # the load sits in a function defined inside the evaluated function (a closure): run before the keep - called by name, through an
+    # alias, handed to a library function that calls it - the evaluation reads the path before producing it: rejected, nothing runs,
+    # also on a store that holds an earlier content. Run after the keep: the value of plain execution (or a refusal), never another one
+    for ci, via in enumerate(["direct", "hof", "alias", "after_direct", "after_hof"]):
+        base = tempfile.mkdtemp(prefix="ddsverif_c09n_")
+        pkg = "c9n_%d_%d" % (os.getpid(), ci)
+        try:
+            real.reset_process_state()
+            real.set_store(["local", "memory"][ci % 2], os.path.join(base, "si"), os.path.join(base, "sd"))
+            ref.call(cmd="refpaths", paths={})
+            for step, expr in enumerate(["'n1'", "'n2'", "'n2'"]):
+                use = {"direct": "    previous = current()\n", "hof": "    previous = hof(current)\n", "alias": "    g = current\n    previous = g()\n"}.get(via)
+                if step == 0 and ci % 2 == 0:
+                    body = "    previous = None\n    a = dds.keep('/n/p', prod)\n"        # an earlier evaluation leaves a content at the path
+                elif use is not None:
+                    body = "    def current():\n        return dds.load('/n/p')\n" + use + "    a = dds.keep('/n/p', prod)\n"
+                else:
+                    body = ("    def current():\n        return dds.load('/n/p')\n    a = dds.keep('/n/p', prod)\n"
+                            + {"after_direct": "    previous = current()\n", "after_hof": "    previous = hof(current)\n"}[via])
+                src = ("import dds\nfrom ddsverif_rt import log, term, hof\n\n"
+                       "def prod():\n    log('prod')\n    return term('prod', %s)\n\n"
+                       "def f0():\n%s    return term('f0', previous, a)\n" % (expr, body))
+                os.makedirs(os.path.join(base, pkg), exist_ok=True)
+                open(os.path.join(base, pkg, "__init__.py"), "w").close()
+                with open(os.path.join(base, pkg, "main.py"), "w") as fh:
+                    fh.write(src)
+                real.load_world(base, pkg + ".main", None, accept=pkg)
+                ref.call(cmd="world", dir=base, module=pkg + ".main", extmod=None)
+                entry = {"kind": "eval", "fun": "f0"}
+                ill = use is not None and "def current" in body
+                rr = None if ill else ref.call(cmd="run", entry=entry)
+                r = real.run(entry)
+                res.evaluations += 1
+                res.count("loads_in_closures_steps")
+                res.nontrivial("load in a closure %s %d" % (via, step))
+                bad = None
+                refused = r["error"] is not None and r["error"]["kind"] == "dds"
+                if ill:
+                    if not refused:
+                        bad = "a closure that loads /n/p is run (%s) before the keep that produces the path: not rejected (value %r, error %s)" % (via, r["value"], r["error"])
+                    elif r["log"]:
+                        bad = "the rejected evaluation executed %s" % (r["log"],)
+                elif refused and "def current" in body:
+                    res.count("loads_in_closures_refused_although_well_ordered")
+                elif rr.get("error") is None and (r["error"] is not None or r["value"] != rr["value"]):
+                    bad = "a closure that loads the path, run after the keep: dds gives %r (error %s), plain execution %r" % (r["value"], r["error"], rr["value"])
+                if bad:
+                    res.violations.append({"what": bad, "input": {"source": src, "step": step, "via": via}, "kf": None})
+                    break
+        finally:
+            shutil.rmtree(base, ignore_errors=True)
+            for k in list(sys.modules):
+                if k.split(".")[0] == pkg:
+                    del sys.modules[k]
     pipeline.close_ref()
     res.rule = ("all 40 combinations placement {root, helper, kept, datafn, loaded value fed to a keep} x producer {datafn, keep} x order {before, after, earlier, never}, plus 16 where the producing function already appeared in the evaluation (called / kept at another path) "
                 "(x%d with fresh random variables / stores / entry kinds), each followed by re-evaluation, producer edit, unrelated edit; one "
